@@ -48,6 +48,16 @@ CHECKS = {
              "character-class precondition forks the path.",
         technique="CrossHair symbolic execution (z3) of the real specifier logic over an executable SQL model",
         ref='4 C08'),
+    'C10': dict(
+        text="Bounded symbolic model checking of the real navigation methods (Sense.word/synset, "
+             "Word.senses/synsets, Synset.senses/words/lemmas, translate, ==/hash) over the SQL model: "
+             "table rows whose ids and owning lexicons are symbolic (ids may coincide across lexicons), "
+             "and a universe of base + extension + extension of the extension + a lexicon reusing the "
+             "base's ids + a lexicon of another language with symbolic ILI assignment, Wordnet selection "
+             "and translation target; results compared with what the documents declare.",
+        note=NOTE_COMMON + DB_NOTE + "Skeletons are small (2-3 entities per kind and lexicon).",
+        technique="CrossHair symbolic execution (z3) of real wn._core navigation over an executable SQL model",
+        ref='4 C10'),
     'C13': dict(
         text="Bounded symbolic model checking of the real wn.taxonomy functions and Synset.relation_paths: "
              "adjacency bits of the hypernym graph are symbolic, so every DAG on 4 (thorough: 5) nodes in "
